@@ -43,6 +43,22 @@ Step(ev) ==
      /\ accepted' = IF ev.pending = 0 THEN confirmed ELSE accepted
      /\ UNCHANGED <<confirmed, run>> /\ Rest
      /\ (ev.pending # Cardinality(buffer) => Verdict(ev, "a failed flush discarded accepted updates (pending_count dropped although nothing was confirmed)"))
+  \/ /\ ev.a = "wconc"      \* two overlapping flushes: A took the buffer, one more delta y arrived, B took that and finished first
+     /\ LET Aset == buffer
+            Bset == IF ev.y_ok THEN {ev.y} ELSE {}
+            left == (IF ev.fa.ok THEN {} ELSE Aset) \cup (IF ev.fb.ok THEN {} ELSE Bset)
+        IN /\ accepted' = accepted \cup Bset
+           /\ confirmed' = confirmed \cup (IF ev.fa.ok THEN Aset ELSE {}) \cup (IF ev.fb.ok THEN Bset ELSE {})
+           /\ buffer' = left
+           /\ IF ev.fa.unreadable \/ ev.fb.unreadable THEN Verdict(ev, "a flush reported success but its segment cannot be read back")
+              ELSE IF ev.fa.ok /\ SetOf(ev.fa.seg) # Aset THEN Verdict(ev, "overlapping flushes: the first flush's segment is not the deltas it took")
+              ELSE IF ev.fb.ok /\ SetOf(ev.fb.seg) # Bset THEN Verdict(ev, "overlapping flushes: the second flush's segment is not the deltas it took")
+              ELSE IF ev.pending # Cardinality(left) THEN Verdict(ev, "overlapping flushes: accepted updates were dropped (or duplicated) in the buffer")
+              ELSE TRUE
+     /\ UNCHANGED run /\ Rest
+  \/ /\ ev.a = "waudit"
+     /\ UNCHANGED <<buffer, accepted, confirmed, run>> /\ Rest
+     /\ (~(confirmed \subseteq SetOf(ev.stored)) => Verdict(ev, "updates of a flush that reported success are no longer in the store (its segment was overwritten or lost)"))
   \/ /\ ev.a = "panic"
      /\ UNCHANGED <<buffer, accepted, confirmed, run>> /\ Rest /\ Verdict(ev, "write buffer panicked")
 
